@@ -30,21 +30,22 @@ def strategy(draw):
     n = draw(st.sampled_from([1, 1, 2, 3]))
     nums = sorted(draw(st.lists(st.integers(1, 22), min_size=n, max_size=n, unique=True)))
     chroms = []
+    style = draw(st.sampled_from(["chr", "chr", ""]))
     for k in nums:
         if draw(st.integers(0, 3)) > 0:
             a, b = draw(st.sampled_from(STEPS[method]))
             if draw(st.booleans()):
                 a, b = b, a
-            chroms.append({"name": f"chr{k}", "kind": "step", "left": a, "right": b,
+            chroms.append({"name": f"{style}{k}", "kind": "step", "left": a, "right": b,
                            "nl": draw(st.one_of(st.integers(100, 130), st.integers(100, 400))),
                            "nr": draw(st.one_of(st.integers(100, 130), st.integers(100, 400)))})
         else:
             gap = draw(st.booleans())
             if gap:
-                chroms.append({"name": f"chr{k}", "kind": "flat", "n": draw(st.integers(200, 600)), "gap": True,
+                chroms.append({"name": f"{style}{k}", "kind": "flat", "n": draw(st.integers(200, 600)), "gap": True,
                                "gap_frac": draw(st.sampled_from([0.5, 0.4, 0.6]))})
             else:
-                chroms.append({"name": f"chr{k}", "kind": "flat", "n": draw(st.integers(100, 600)), "gap": False})
+                chroms.append({"name": f"{style}{k}", "kind": "flat", "n": draw(st.integers(100, 600)), "gap": False})
     return {"method": method, "chroms": chroms, "sd": draw(st.one_of(st.sampled_from([0.01, 0.1]), st.integers(1, 10).map(lambda k: k / 100.0))),
             "seed": draw(st.integers(0, 2 ** 31))}
 
